@@ -35,7 +35,7 @@ def _key(case):
 
 
 def generate(rng, tier):
-    n = {"quick": 260, "escalated": 1500, "thorough": 6000}[tier]
+    n = {"quick": 1000, "escalated": 1500, "thorough": 6000}[tier]
     cases = []
     for k in range(n):
         cases.append(rules.gen_case(rng, CYCLE_PROFILE if k % 8 == 7 else PROFILE))
